@@ -693,14 +693,39 @@ class _WidgetRun:
                         urwid.disconnect_signal_by_key(self.widgets[c[0]], c[1], c[4])
                         c[5] = False
                     else:
-                        if c[3]:
+                        if c[6] is not None:
+                            urwid.disconnect_signal(self.widgets[c[0]], c[1], handlers[c[2]], c[6])
+                        elif c[3]:
                             urwid.disconnect_signal(self.widgets[c[0]], c[1], handlers[c[2]], user_args=list(c[3]))
                         else:
                             urwid.disconnect_signal(self.widgets[c[0]], c[1], handlers[c[2]])
                         # removes the first connection with these arguments
-                        first = next(x for x in self.conns if x[5] and x[:4] == c[:4] and x[6] is None)
+                        first = next(x for x in self.conns if x[5] and x[:4] == c[:4] and ((x[6] is None) if c[6] is None else (x[6] is not None and x[6] == c[6])))
                         first[5] = False
+                        if first[4] is None:
+                            self.res.probe("constructor_connection_disconnected_by_arguments")
                     self.log.add("disc", [c[0], c[1], c[2], bool(op.get("by_key"))])
+                    continue
+                if k == "conn_ud":
+                    # the form Button documents: connect_signal(button, 'click', callback, user_data)
+                    hid = op.get("h", 0) % len(handlers)
+                    ud = [0, 7][op.get("ud", 0) % 2]
+                    key = urwid.connect_signal(self.widgets[5], "click", handlers[hid], ud)
+                    self.conns.append([5, "click", hid, (), key, True, ud])
+                    self.log.add("conn_ud", [hid, ud])
+                    continue
+                if k == "disc_ud":
+                    # ... and disconnect_signal(button, 'click', callback, user_data), which also removes the connection the
+                    # constructor made ("on_press: shorthand for connect_signal()"); nothing connected that way: no effect
+                    hid = op.get("h", 3) % len(handlers)
+                    ud = [0, 7][op.get("ud", 0) % 2]
+                    urwid.disconnect_signal(self.widgets[5], "click", handlers[hid], ud)
+                    first = next((x for x in self.conns if x[5] and x[:4] == [5, "click", hid, ()] and x[6] is not None and x[6] == ud), None)
+                    if first is not None:
+                        first[5] = False
+                        if first[4] is None:
+                            self.res.probe("constructor_connection_disconnected_by_arguments")
+                    self.log.add("disc_ud", [hid, ud, first is not None])
                     continue
                 if k == "body":
                     cur_body = 6 + op.get("to", 0) % 2
@@ -853,6 +878,7 @@ class SignalsEngine(Engine):
         "disconnect_of_not_connected",
         "widget_emission_checked",
         "radio_group_cascade",
+        "constructor_connection_disconnected_by_arguments",
     )
     reducible = ("ops", "behaviours")
 
@@ -867,6 +893,10 @@ class SignalsEngine(Engine):
                     ops.append({"op": "disc", "c": rng.randrange(6), "by_key": rng.random() < 0.5})
                 elif r < 0.52:
                     ops.append({"op": "body", "to": rng.randrange(2)})
+                elif r < 0.56:
+                    ops.append({"op": "conn_ud", "h": rng.randrange(4), "ud": rng.randrange(2)})
+                elif r < 0.61:
+                    ops.append({"op": "disc_ud", "h": rng.choice([3, 3, rng.randrange(4)]), "ud": rng.choice([0, 0, 1])})
                 else:
                     ops.append({"op": "act", "w": rng.randrange(8), "a": rng.randrange(12), "v": rng.randrange(6), "quiet": rng.random() < 0.15})
             return {"mode": "widgets", "config": {}, "ops": ops, "behaviours": []}
